@@ -49,6 +49,7 @@ type wCase struct {
 	Fault *faultSpec `json:"fault,omitempty"` // applies to the last op of the history
 	Pre   *wFaulted  `json:"earlier_fault,omitempty"`
 	Conc  *c10cCase  `json:"concurrent,omitempty"` // C10's concurrent part (c10b_concurrent.go)
+	Mgr   *c11mCase  `json:"manager_case,omitempty"` // C11's manager part (c11b_manager.go)
 }
 
 func opAlphabet(prop string, v *world.View) []wOp {
@@ -77,7 +78,7 @@ func opAlphabet(prop string, v *world.View) []wOp {
 		}
 		last = cls
 		ops = append(ops, wOp{Kind: "remove", W: i}, wOp{Kind: "dissociate", W: i}, wOp{Kind: "replace", W: i})
-		for _, d := range []string{"+mem", "-mem", "+cpu", "unbind", "bind"} {
+		for _, d := range []string{"+mem", "++mem", "-mem", "+cpu", "unbind", "bind"} {
 			ops = append(ops, wOp{Kind: "realloc", W: i, Delta: d})
 		}
 	}
@@ -150,6 +151,10 @@ func worldExplore(t *testing.T, c *vcore.Ctx, prop string) {
 		}
 		if wc.Conc != nil {
 			c10Concurrent(t, c, b, snap0, wc.Conc)
+			return
+		}
+		if wc.Mgr != nil {
+			c11Manager(c, wc.Mgr)
 			return
 		}
 		worldReplay(t, c, prop, b, snap0, &wc)
@@ -247,6 +252,9 @@ func worldExplore(t *testing.T, c *vcore.Ctx, prop string) {
 	}
 	if prop == "C10" {
 		c10Concurrent(t, c, b, snap0, nil)
+	}
+	if prop == "C11" && c.Shard == 0 {
+		c11Manager(c, nil)
 	}
 }
 
